@@ -402,6 +402,10 @@ def run_cfg(chk, facts, cfg):
                                     mods.append((c, apath, hav, src))
                                 elif not is_unchanged(sm, d):
                                     probs.append('a state is updated by something else than the element')
+                    uniq = {}
+                    for mm in mods:
+                        uniq.setdefault((mm[0], mm[1]), mm)
+                    mods = list(uniq.values())
                     if len(mods) != 1:
                         probs.append('loop at %s updates %d states' % (rec['where'], len(mods)))
                         continue
